@@ -68,7 +68,7 @@ fn gen(ctx: &Ctx) -> Vec<Case> {
         }
         v.push(Case { base, pgoff: 0x100, layout: Layout::HoleAt(rng.range(-32000, 32000)), faults: Faults::FirstN(3), region: name });
     }
-    let extra = if ctx.n > 0 { ctx.n } else if ctx.thorough { 2600 } else { 40 };
+    let extra = if ctx.n > 0 { ctx.n } else if ctx.thorough { 12000 } else { 40 };
     for _ in 0..extra {
         let &(name, base) = rng.pick(&regions);
         let l = match rng.below(6) {
